@@ -66,6 +66,7 @@ class AlignIndexAllLengths(Contract):
     target = "glotaran.optimization.data_provider:DataProviderLinked.align_index"
     strength = "U"
     trusted = (
+        *__import__('contracts.unbounded', fromlist=['WP_ASSUMPTIONS']).WP_ASSUMPTIONS,
         "numpy contracts: `a - x`, np.abs elementwise; `a <cmp> c` Boolean mask; a[mask] = subsequence where the mask holds (order kept); len; ndarray.min / argmin (first minimum, ValueError when empty)",
         "floats as reals",
     )
